@@ -536,6 +536,15 @@ class Connectivity(abc.Mapping):
         data = dict(sorted(self._data.items()))
         for name, v in data.items():
             connectivity[name] = [v.minus.todict(), v.plus.todict()]
+            # the orientation (int in 2D, 3 ints in 3D, None in 1D) is stored as an
+            # optional third entry, like in the connectivity list of Domain.join
+            ornt = v.ornt
+            if ornt is not None:
+                if isinstance(ornt, (tuple, list, Tuple)):
+                    ornt = [int(o) for o in ornt]
+                else:
+                    ornt = int(ornt)
+                connectivity[name].append(ornt)
         connectivity = dict(sorted(connectivity.items()))
         # ...
 
